@@ -160,7 +160,7 @@ func (u *UserHash) getFilename(isAdmin bool) string {
 	return filename + userExt
 }
 
-func (u *UserHash) writeHashStr(password string, isAdmin bool, mayCreate bool) error {
+func (u *UserHash) writeHashStr(password string, isAdmin bool, mayCreate bool) (err error) {
 	paramID := u.store.Default
 	hasher := u.store.Params[u.store.Default]
 	if hasher == nil {
@@ -184,6 +184,14 @@ func (u *UserHash) writeHashStr(password string, isAdmin bool, mayCreate bool) e
 		return err
 	}
 	defer file.Close() //nolint:errcheck
+	if mayCreate {
+		// the file has just been created (empty) by us: don't leave it behind if anything below fails
+		defer func() {
+			if err != nil {
+				os.Remove(file.Name()) //nolint:errcheck
+			}
+		}()
+	}
 
 	tmp, err := u.store.getTempFile()
 	if err != nil {
